@@ -170,8 +170,14 @@ fn c07facts(repo: &Path) -> Result<String, String> {
         pat_idents(&arm.pat, &mut names)?;
         let ops: Vec<&str> = names.iter().map(|n| lean_op(n)).collect::<Result<_, _>>()?;
         let body = norm(&arm.body);
+        // what the expression's type is unified with: `bool`, or a local variable
+        // holding the operands' type (whatever it is called)
         let result_bool = body.contains("self.unify(&ctx.expected_type,&Type::bool(),span,None)?");
-        let result_operand = body.contains("self.unify(&ctx.expected_type,&operand_ty,span,None)?");
+        let result_operand = body.match_indices("self.unify(&ctx.expected_type,&").any(|(i, m)| {
+            let rest = &body[i + m.len()..];
+            let name: String = rest.chars().take_while(|c| c.is_ascii_alphanumeric() || *c == '_').collect();
+            !name.is_empty() && rest[name.len()..].starts_with(",span,None)?")
+        });
         if result_bool == result_operand {
             return Err(format!("arm {names:?} of binop: cannot tell what the expression's type is unified with"));
         }
